@@ -39,6 +39,7 @@ ASSUMPTIONS = ["the model is handed over as documented by class HMM: S(track, k)
 N_VARIANTS = 4
 
 OBLIGATIONS = {
+    "another_model_on_a_decoded_track": "a second, different model was decoded on a track that already carried the result of a first decoding",
     "every_observation_shape": "the observation was stored as a list of one, a list of two, a tuple, a string, a nested list, and read as a 2-D and as a 3-D position from two / three features (models of <= 2 epochs)",
     "tie": ">= 2 sequences attain the maximum likelihood (> 0)",
     "zero_likelihood_optimum": "every sequence has likelihood 0",
@@ -177,7 +178,8 @@ class ModelMisuse(Exception):
     """The implementation queried the model outside its documented contract."""
 
 
-def build(variant, sizes, P, Q, log, form="number"):
+def build(variant, sizes, P, Q, log, form="number", track=None):
+    """track: decode on THIS track (it already holds the observation feature, and whatever an earlier decoding left on it)."""
     T = len(sizes)
     if form in POSITION_FORMS:
         codes = {}
@@ -204,6 +206,8 @@ def build(variant, sizes, P, Q, log, form="number"):
         v = Q[k][s1[1]][s2[1]]
         return math.log(v) if log else v
 
+    if track is not None:
+        return HMM(S, Qf, Pf, log=log), track, cand
     t0 = alpha.t0(variant)
     obs = []
     for k in range(T):
@@ -325,6 +329,24 @@ def check_model(variant, sizes, flat, ctx):
             if again is None or again[0] != seq or again[1] != cost:
                 ctx.violation("estimate/second-decoding-differs", case, {"first": [repr(seq), cost], "second": repr(again)[:200]})
         ctx.outcome((sizes, tuple(s[1] for s in seq), best > 0))
+        if T <= 3:
+            # ANOTHER model decoded on the same track (which still carries the result of the first one): the mirror image of
+            # the model (candidates of every epoch listed the other way round), whose optimum is the same number
+            P2 = [list(reversed(row)) for row in P]
+            Q2 = [[list(reversed(r)) for r in reversed(M)] for M in Q]
+            hmm2, _, cand2 = build(variant, sizes, P2, Q2, False, "number", track)
+            st, r = decode(hmm2, track, "none")
+            ctx.count("decodings")
+            ctx.oblige("another_model_on_a_decoded_track")
+            site2 = "estimate/another-model-on-an-already-decoded-track"
+            if st != "ok":
+                ctx.violation("%s/%s" % (site2, "does-not-return" if st == "hang" else "raises"), case, r)
+            else:
+                got2 = _read(track, T)
+                if got2 is None:
+                    ctx.violation(site2 + "/result-not-readable", case, None)
+                else:
+                    judge(site2, case, got2[0], got2[1], cand2, P2, Q2, best, ctx)
     # ---- the same model supplied as logarithms (checked whatever happened above) ---------
     if all(v > 0 for v in flat):
         ctx.oblige("log_mode")
